@@ -11,7 +11,10 @@ path columns on or off the characters of the LogRender grid are derived too (Mod
 table model with text cells, request c15_log; the time display and the caller are inputs).  A running Live display is driven
 through its public API; the console calls rich makes on its behalf (show_cursor, `with console:`, print, line, control) are
 logged by instance-level wrappers (Tracer) and become the model's operations.  save_text / save_html are export_* plus
-a file that is read back.
+a file that is read back.  Round 4: `export_html(code_format=fmt)` with the format string handed to the model AS A STRING (request
+c15_htmlfmt: the model scans it like str.format - doubled braces, single braces, unknown / numbered fields - and answers the document or
+the exception, and the record afterwards), and the time cells of consecutive log calls under a varying clock (c15_logtimes:
+LogRender._last_time is model state).
 
 Direct evaluation (DESIGN 3d): the executable statements of the theorems in Props/C15.lean on rich's own outputs,
 with oracles that do not use the model: a terminal-stream tokenizer, html.parser, and a twin console for captures
@@ -1154,6 +1157,214 @@ def gen_history(rng, n, bad_links, balanced=True):
     return ops
 
 
+# ------------------------------------------------------------------ code_format as a string: str.format with its error branch (Model/ConsoleFormat.lean)
+FMT_TOKENS = ["{", "}", "code", "x", "0", "<b>", "&", "stylesheet", ":", "!", ".", "[", "foreground", " "]
+FMT_PIECES = ["{code}", "{stylesheet}", "{foreground}", "{background}", "{{", "}}", "{", "}", "{}", "{0}", "{12}", "{colour}", "{ code}", "{code }", "{Code}",
+              "{code!r}", "{code:>4}", "{code.x}", "{code[0]}", "<pre>", "</pre>", "&amp;", "&", "a<b", "\n", "{stylesheet", "code}", "{{code}}", "{{{code}}}", "あ", "{é}"]
+FMT_RECORDS = [
+    [],
+    [("t", "x<&>", "bold", [])],
+    [("t", "{code}{", "italic link http://e.x/?a=1&b=2", []), ("s", "}} {stylesheet}"), ("t", "lt;", "red on blue", [(0, 1, "bold")])],
+]
+
+
+def _fmt_oracle(fmt, vals):
+    """What `fmt.format(**vals)` must do, from Python's own parser of format strings (`string.Formatter().parse`, not the Lean model):
+    ('ok', text) / ('err', class name, key) / None when a field uses a conversion, a spec, an attribute or an index."""
+    out = []
+    try:
+        for lit, field, spec, conv in string.Formatter().parse(fmt):
+            out.append(lit)
+            if field is None:
+                continue
+            if spec or conv or "." in field or "[" in field or not field.isascii():
+                return None
+            if field == "" or field.isdigit():
+                return ("err", "IndexError", None) if len(field) <= 18 else None
+            if field not in vals:
+                return ("err", "KeyError", field)
+            out.append(vals[field])
+    except ValueError:
+        return ("err", "ValueError", None)
+    return ("ok", "".join(out))
+
+
+def format_cases(ctx, rng):
+    """export_html(code_format=fmt) for format strings as strings: every concatenation of <= 3 (thorough: 4) tokens of FMT_TOKENS and random
+    concatenations of FMT_PIECES, on three records, clear on/off, both inline_styles modes; compared with the model's scanner
+    (c15_htmlfmt: result or exception, and the record afterwards) and judged directly: Python's own format-string parser says what
+    must happen, the four values are obtained from rich by one-field formats and the theme, a failing format must leave the record alone."""
+    from rich.console import COLOR_SYSTEMS
+    from rich.terminal_theme import DEFAULT_TERMINAL_THEME, TerminalTheme
+
+    fmts = []
+    for n in range(0, 4 if ctx.quick else 5):
+        for t in itertools.product(FMT_TOKENS, repeat=n):
+            fmts.append("".join(t))
+    fmts = sorted(set(fmts))
+    for _ in range(600 if ctx.quick else 20000):
+        fmts.append("".join(rng.choice(FMT_PIECES) for _ in range(rng.randint(1, 6))))
+    for _ in range(100 if ctx.quick else 2000):  # literal text with its braces doubled
+        text = "".join(rng.choice(["{", "}", "a", "&", "<", "{code}", " "]) for _ in range(rng.randint(0, 8)))
+        fmts.append(("dbl", text))
+    ctx.note("format_strings", len(fmts))
+    cfg = cfg_with(width=40)
+    cs = COLOR_SYSTEMS[cfg["color_system"]]
+    consoles = []
+    for ri, robjs in enumerate(FMT_RECORDS):
+        for themed in (False, True):
+            c, f, spy = make_console(cfg)
+            if robjs:
+                c.print(*[build(r) for r in robjs])
+            theme = TerminalTheme(*CUSTOM_THEME) if themed else None
+            enc = Enc()
+            rec = list(c._record_buffer)
+            rec_enc = enc.line(rec)
+            table = enc.table(cs, False, theme)
+            th = theme or DEFAULT_TERMINAL_THEME
+            want_fg = "#%02x%02x%02x" % (tuple(CUSTOM_THEME[1]) if themed else tuple(DEFAULT_TERMINAL_THEME.foreground_color))
+            want_bg = "#%02x%02x%02x" % (tuple(CUSTOM_THEME[0]) if themed else tuple(DEFAULT_TERMINAL_THEME.background_color))
+            consoles.append((c, theme, enc, rec, rec_enc, table, th, want_fg, want_bg, ri))
+    vals_cache = {}
+    for k, fmt in enumerate(fmts):
+        dbl = None
+        if isinstance(fmt, tuple):
+            dbl = fmt[1]
+            fmt = dbl.replace("{", "{{").replace("}", "}}")
+        c, theme, enc, rec, rec_enc, table, th, want_fg, want_bg, ri = consoles[k % len(consoles)] if not ctx.quick or len(fmt) > 2 else consoles[rng.randrange(len(consoles))]
+        clr = rng.random() < 0.5
+        inl = rng.random() < 0.5
+        desc = {"code_format": fmt, "record": FMT_RECORDS[ri], "clear": clr, "inline_styles": inl, "theme": theme is not None}
+        vals = vals_cache.get((id(c), inl))
+        if vals is None or rng.random() < 0.05:  # the record is put back after every case, so the four values are per (console, inline_styles)
+            vals = {}
+            try:
+                for name in ("code", "stylesheet", "foreground", "background"):
+                    vals[name] = c.export_html(clear=False, inline_styles=inl, theme=theme, code_format="{" + name + "}")
+            except BaseException as e:  # noqa: BLE001
+                ctx.check(False, "export_html(code_format)", desc, f"a one-field format raised {type(e).__name__}: {e}")
+                continue
+            vals_cache[(id(c), inl)] = vals
+        ctx.check(vals["foreground"] == want_fg and vals["background"] == want_bg, "export_html(code_format)", desc,
+                  f"{{foreground}} / {{background}} expand to {vals['foreground']!r} / {vals['background']!r}; the theme says {want_fg!r} / {want_bg!r}")
+        try:
+            res = c.export_html(clear=clr, inline_styles=inl, theme=theme, code_format=fmt)
+            got = ("ok", res)
+            ans = "e" + enc_str(res)
+        except BaseException as e:  # noqa: BLE001
+            cls = type(e).__name__
+            if isinstance(e, KeyError) and e.args and isinstance(e.args[0], str):
+                got = ("err", "KeyError", e.args[0])
+                ans = "err:KeyError:" + enc_str(e.args[0])
+            elif cls in ("ValueError", "IndexError"):
+                got = ("err", cls, None)
+                ans = "err:" + cls
+            elif cls == "AssertionError":
+                got = ("err", cls, None)
+                ans = "A"
+            else:
+                got = ("err", "Other:" + cls, None)
+                ans = "err:Other:" + cls
+        after = list(c._record_buffer)
+        want = _fmt_oracle(fmt, vals)
+        ctx.note("format:" + ("unmodelled" if want is None else want[0] if want[0] == "ok" else want[1]))
+        if want is not None:
+            ctx.check(got == want, "export_html(code_format)", desc, f"export_html returned / raised {got!r}; str.format semantics on the four values give {want!r}")
+        if dbl is not None:
+            ctx.check(got == ("ok", dbl), "export_html(code_format)", desc, f"the format string with doubled braces did not give back the text {dbl!r}: {got!r}")
+        if got[0] == "ok":
+            ctx.check(after == ([] if clr else rec), "clear", desc, f"export_html(clear={clr}) left {len(after)} of {len(rec)} recorded segments")
+        else:
+            ctx.check(after == rec, "clear", desc, f"export_html raised {got[1]} and changed the record ({len(rec)} -> {len(after)} segments)")
+        ctx.case("c15_htmlfmt", [f"{RECORD_IN_RENDER}{MERGE_CTL}{ESCAPE_HREF}{CAPTURE_MARKS}", model_config(cfg), table, rec_enc, enc_bool(clr), enc_bool(inl),
+                                 enc_str(th.foreground_color.hex), enc_str(th.background_color.hex), enc_str(fmt)],
+                 ans + "\t" + enc.line(after), shape=f"fmt:{got[0] if got[0] == 'ok' else got[1]}", sample=repr(desc) if len(fmt) < 40 else None)
+        if after != rec:  # put the record back for the next format string (the consoles are shared)
+            c._record_buffer[:] = rec
+    # a non-recording console: `assert self.record` comes before the format is looked at
+    c, f, spy = make_console(cfg_with(record=False))
+    for fmt in ["{code}", "{", "{x}", "{0}"]:
+        try:
+            c.export_html(code_format=fmt)
+            ans = "e"
+        except AssertionError:
+            ans = "A"
+        except BaseException as e:  # noqa: BLE001
+            ans = "err:Other:" + type(e).__name__
+        ctx.check(ans == "A", "export_html(code_format)", {"code_format": fmt, "record": False}, f"export_html on a non-recording console: {ans}")
+        ctx.case("c15_htmlfmt", [f"{RECORD_IN_RENDER}{MERGE_CTL}{ESCAPE_HREF}{CAPTURE_MARKS}", model_config(cfg_with(record=False)), "0", "", "1", "0", enc_str("#000000"), enc_str("#ffffff"), enc_str(fmt)],
+                 ans + "\t", shape="fmt:norecord")
+    ctx.flush()
+
+
+# ------------------------------------------------------------------ the time column of log: LogRender._last_time (Model/ConsoleLogTime.lean)
+LOG_CLOCK = [datetime.datetime(2020, 1, 2, 3, 4, 5), datetime.datetime(2020, 1, 2, 3, 4, 6), datetime.datetime(2021, 5, 6, 3, 4, 5),
+             datetime.datetime(2020, 1, 2, 3, 4, 5, 999), datetime.datetime(2020, 1, 2, 13, 4, 5)]
+
+
+def logtime_cases(ctx, rng):
+    """Consecutive log calls under a clock that follows a generated sequence (equal times, times that differ only in the date or the
+    microseconds and therefore have the same "[%X]" display, different times), some of them inside capture blocks, `with console:`
+    blocks or followed by exports: the time cell of every call is read off the appended segments and compared with the model's
+    `logTimeCells`; directly: blank iff the display equals the previous call's display."""
+    from rich.console import Console
+
+    seqs = []
+    for n in range(1, 5 if ctx.quick else 7):
+        for t in itertools.product(range(2), repeat=n):
+            seqs.append((True, list(t)))
+    for _ in range(120 if ctx.quick else 4000):
+        seqs.append((rng.random() < 0.85, [rng.randrange(len(LOG_CLOCK)) for _ in range(rng.randint(1, 7))]))
+    for show, seq in seqs:
+        clock = {"i": 0}
+        f = LogFile()
+        c = Console(file=f, width=rng.choice([30, 60]), force_terminal=False, color_system=None, record=True, log_time=show, log_path=rng.random() < 0.3,
+                    get_datetime=lambda: LOG_CLOCK[seq[min(clock["i"], len(seq) - 1)]], markup=False, emoji=False, highlight=False, _environ={})
+        spy = SpyList()
+        c._thread_locals.buffer = spy
+        desc = {"log_time": show, "clock": seq}
+        cells, displays = [], []
+        prev = None
+        depth = 0
+        for i in range(len(seq)):
+            clock["i"] = i
+            r = rng.random()
+            if r < 0.15:
+                c.begin_capture()
+                depth += 1
+            elif r < 0.25:
+                c.export_text(clear=rng.random() < 0.5)
+            spy.take()
+            try:
+                if r > 0.9:
+                    with c:
+                        c.log("m")
+                else:
+                    c.log("m")
+            except BaseException as e:  # noqa: BLE001
+                ctx.check(False, "log", desc, f"log call {i} raised {type(e).__name__}: {e}")
+                break
+            text = "".join(s.text for s in spy.take())
+            disp = LOG_CLOCK[seq[i]].strftime("[%X]")
+            displays.append(disp)
+            cell = text[: len(disp)] if show else None
+            if show:
+                want = " " * len(disp) if disp == prev else disp
+                ctx.check(cell == want, "log time column", desc, f"log call {i}: the line starts with {text[:len(disp) + 2]!r}; the display is {disp!r}, the previous call's {prev!r}")
+                ctx.note("logtime:" + ("blank" if disp == prev else "shown"))
+            else:
+                ctx.check(text.startswith("m"), "log time column", desc, f"log call {i} without log_time starts with {text[:12]!r}")
+                ctx.note("logtime:off")
+            cells.append("-" if cell is None else "=" + enc_str(cell))
+            prev = disp
+            if depth and rng.random() < 0.5:
+                c.end_capture()
+                depth -= 1
+        else:
+            ctx.case("c15_logtimes", [enc_bool(show), enc_str_list(displays)], ",".join(cells), shape=f"logtimes:{len(seq)}", sample=repr(desc))
+    ctx.flush()
+
+
 def run(ctx):
     rng = ctx.rng
     STATS.update(raised=0, histories=0)
@@ -1172,6 +1383,8 @@ def run(ctx):
         "a Live display enters the model as the sequence of console calls rich makes for it (logged by wrappers that leave the calls unchanged); "
         "its own logic (LiveRender shape, cursor codes) is C10's subject",
         "single thread; is_jupyter False; the pager is out of scope; log_time uses an injected get_datetime and log_path a fixed caller",
+        "code_format strings: fields with a conversion, a format spec, an attribute / index lookup or a non-ASCII name are outside the model "
+        "(`unmodelled`, counted); exception classes and KeyError's key are compared, messages are not; the strftime display of the clock is an input",
     ]
 
     # ---- 1. bounded-exhaustive: every history of <= L operations over SMALL_OPS (12 operations, capture blocks never
@@ -1316,6 +1529,9 @@ def run(ctx):
             ctx.check(_html.unescape(real) == s or "&" in s, "escape", s, "html.unescape(escape(s)) != s")
             ctx.case("c15_escape_attr", [enc_str(s)], enc_str(_html.escape(s, quote=True)))
     ctx.flush()
+    # ---- 6. code_format as a string (str.format scanner with its error branch), and the time column of consecutive logs
+    format_cases(ctx, rng)
+    logtime_cases(ctx, rng)
     ctx.rule = (
         "every history of <= %d operations (<= 3 on the last three configurations of the thorough tier) over 12 operations "
         "(print with <,>,&; adjacent equal styles; link; bell; line; begin/end capture; 4 exports) x %d configurations, each "
@@ -1326,7 +1542,11 @@ def run(ctx):
         "(random histories, and every list of <= 2 strings <= 2 characters over {a, space, newline, tab, wide} x widths 0..5 x 4 option sets) "
         "and the text of log(*strings) with the time / path columns on or off; "
         "+ histories around a running Live display; + `with console:` blocks mixed with captures, also unbalanced; save_text/save_html among "
-        "the exports. distinct = distinct canonical requests (one per history with 4 observations, one per derived append)"
+        "the exports; + code_format as a string: every concatenation of <= 3 tokens (thorough: <= 4) over "
+        "{ '{', '}', code, x, 0, <b>, &, stylesheet, ':', '!', '.', '[', foreground, space } and random concatenations of 31 pieces (fields, doubled and "
+        "single braces, conversions, specs), on 3 records x 2 themes, clear and inline_styles random; + log calls under a clock following every "
+        "0/1 sequence of <= 4 (thorough: 6) and random sequences over 5 datetimes (equal displays on different dates), around captures / exports. "
+        "distinct = distinct canonical requests (one per history with 4 observations, one per derived append)"
         % (L, len(configs))
     )
 
@@ -1403,7 +1623,15 @@ MANIFEST = {
     "strings the derived segments carry exactly the C02 wrap of the joined text at the console width, lines joined by line "
     "feeds, then `end`; so export_text of a history of such prints is the concatenation of the wrapped strings - composed "
     "read-only from C05 render_view/inv_join, C02 wrap_lines_fit/wrap_fold_keeps_nonspace, C13 split_and_crop_refines and the "
-    "C01 line/piece bridge). Proved for "
+    "C01 line/piece bridge); code_format AS A STRING (deepening round 4, Model/ConsoleFormat.lean: str.format's left-to-right scanner - doubled braces, "
+    "single braces, unknown / numbered / empty fields - with its error branch, and the order 'format, then clear' of export_html): "
+    "code_format_ok_iff (a document is returned exactly when the scan reaches the end and every field is one of the four keywords, and it is "
+    "then exportHtml on the parsed template, so the template theorems speak about format strings), code_format_error_branch (KeyError names the "
+    "first field that is neither a keyword nor a number; a failing format string fails for every value), code_format_doubled_braces, "
+    "code_format_step (a raising format leaves the record alone even with clear=True), export_html_document_decoded (ANY template with {code} "
+    "once: tags removed and entities decoded = text before [no '&' in it] + exported text + decoded text after; exact form without that "
+    "assumption; witness old_amp_before_code_joins), export_html_document_format (the same for format strings); log_time_cells "
+    "(LogRender._last_time: the time cell of a log call is blank iff its display equals the previous call's, any sequence of displays). Proved for "
     "the repaired variant, which is what /repo contains now (fixes 114bbe8, e488480, 1202b8a; b97fe77 for simplify); the witnesses "
     "old_capture_is_recorded, old_href_breaks_html, old_simplify_bell_in_html and nested_capture_steals (by evaluation) show rich 9.10.0 "
     "as found violating them. Tie: ~11k (quick) / ~130k (thorough; sum of the loop bounds in run()) histories per run executed on real "
@@ -1422,9 +1650,13 @@ MANIFEST = {
     "(5) `with console:` blocks (enterBuffer / exitBuffer) are part of capture_nesting; the harness's twin-console oracle for "
     "captures is not evaluated on histories that contain them (the correspondence is). A Live display is covered as the "
     "console calls rich makes for it; its own logic is C10's. In rich 9.10.0 as found (before fix 1202b8a) an inner end_capture returned the enclosing block's pending output (witness "
-    "nested_capture_steals, finding nested-capture-steals). (6) The whole-document theorem is decoded (tags removed and entities decoded) for the default template; for an arbitrary "
-    "code_format it is at the tags-removed level and needs the text before {code} to end outside a tag. "
-    "(7) Single thread, is_jupyter False, pager out of scope; save_text/save_html are compared as export + file read back. "
+    "nested_capture_steals, finding nested-capture-steals). (6) The whole-document theorem is decoded (tags removed and entities decoded) for the default template and, since round 4, for an arbitrary "
+    "code_format given as a string, provided the text before {code} ends outside a tag and contains no '&' (without the last condition: the exact "
+    "right-fold form; a dangling '&' before {code} does join with the code, witness old_amp_before_code_joins). str.format is modelled for fields "
+    "without conversion / format spec / attribute / index and ASCII field names (anything else answers `unmodelled`: ~7% of the generated format "
+    "strings); exception messages are not compared, only the class and KeyError's key. The clock's strftime display is an input of log_time_cells; "
+    "what else log(*renderables) appends (styles of the log columns, log_path's link, non-string renderables, justify=) stays observed. "
+    "(7) Single thread, is_jupyter False, pager out of scope (Console.pager's buffer path is not modelled; rich 9.10.0 has no `quiet`); save_text/save_html are compared as export + file read back. "
     "Findings of this property, all repaired in /repo: capture-recorded (F17, fix 114bbe8), html-href-unescaped (fix e488480), "
     "nested-capture-steals (fix 1202b8a); the flag constants hold the repaired values: RECORD_IN_RENDER = 0, MERGE_CTL = 0 "
     "(C13's fix b97fe77), ESCAPE_HREF = 1, CAPTURE_MARKS = 1. No `known:` line exists for C15, so the check prints no "
